@@ -28,6 +28,10 @@ type Scanner struct {
 	lastDirectiveParameters []*Lexeme
 	curIndex                bytes.Index
 	dataSize                bytes.Index
+
+	// canOpenContext is true between the keyword of a directive and its opening parenthesis or body:
+	// the only place where an opening parenthesis belongs to a directive.
+	canOpenContext bool
 }
 
 func NewJApiScanner(file *fs.File) *Scanner {
@@ -129,11 +133,22 @@ func (s *Scanner) processLexemeEvent(lexEvent LexemeEvent) (*Lexeme, *jerr.JApiE
 
 			lex := NewLexeme(eventType.ToLexemeType(), startEvent.position, lexEvent.position, s.file)
 
+			switch lex.Type() { //nolint:exhaustive // Parameters and annotations keep the flag.
+			case Keyword:
+				s.canOpenContext = true
+			case Schema, Text, Json, Enum:
+				s.canOpenContext = false
+			}
+
 			return lex, nil
 		default:
 			return nil, s.japiErrorBasic("Ending lexeme event does not match beginning event")
 		}
 	case eventType.IsSingle():
+		if eventType == ContextOpen && !s.canOpenContext {
+			return nil, s.japiError(jerr.ThereIsNoDirectiveForThisLexeme, lexEvent.position)
+		}
+		s.canOpenContext = false
 		lex := NewLexeme(eventType.ToLexemeType(), lexEvent.position, lexEvent.position, s.file)
 		return lex, nil
 	default:
